@@ -78,6 +78,42 @@ func c08IsDoneRecv(s ast.Stmt) bool {
 	return ok && se.Sel.Name == "Done"
 }
 
+// c08FuncsNamed returns every top-level function / method of the root package with that name.
+func c08FuncsNamed(c *ctx, name string) []*ast.FuncDecl {
+	fs, err := c.files("")
+	if err != nil {
+		return nil
+	}
+	var out []*ast.FuncDecl
+	for _, f := range fs {
+		for _, d := range f.Decls {
+			if fd, ok := d.(*ast.FuncDecl); ok && fd.Name.Name == name {
+				out = append(out, fd)
+			}
+		}
+	}
+	return out
+}
+
+// c08IsRecvFromVar reports whether the comm statement receives from one of the named locals.
+func c08IsRecvFromVar(s ast.Stmt, vars map[string]bool) bool {
+	var e ast.Expr
+	switch c := s.(type) {
+	case *ast.ExprStmt:
+		e = c.X
+	case *ast.AssignStmt:
+		if len(c.Rhs) == 1 {
+			e = c.Rhs[0]
+		}
+	}
+	ue, ok := e.(*ast.UnaryExpr)
+	if !ok || ue.Op.String() != "<-" {
+		return false
+	}
+	id, ok := ue.X.(*ast.Ident)
+	return ok && vars[id.Name]
+}
+
 func c08HasReturn(stmts []ast.Stmt) bool {
 	found := false
 	for _, s := range stmts {
@@ -112,52 +148,229 @@ func c08Facts(c *ctx) (string, error) {
 	if loop == nil {
 		return "", fmt.Errorf("Request.do: retry loop not found")
 	}
-	if !c08ContainsCall(loop, "GetRetryInterval") {
-		return "", fmt.Errorf("Request.do: no GetRetryInterval call in the retry loop")
-	}
-
 	// --- the wait --------------------------------------------------------------------------
-	nSleep, nSelect := 0, 0
-	selectsCtx := false
-	var bad string
+	// Normalised view: the wait may sit in the loop itself or, one level deep, in a helper of the
+	// same package that the loop calls with the retry interval (an argument that contains the
+	// GetRetryInterval call, or a local assigned from it), or that computes the interval itself.
+	// What is extracted does not depend on local names, on `time.After` vs `time.NewTimer`, on the
+	// order of the select cases, or on `<-ctx.Done()` vs a local holding the Done channel.
+	type scope struct {
+		name   string
+		body   *ast.BlockStmt
+		helper bool
+	}
+	scopes := []scope{{"Request.do", loop.Body, false}}
+	intervalVars := map[string]bool{}
 	ast.Inspect(loop.Body, func(x ast.Node) bool {
-		switch n := x.(type) {
-		case *ast.FuncLit:
-			return false
-		case *ast.ExprStmt:
-			if ce, ok := c08IsPkgCall(n.X, "time", "Sleep"); ok {
-				nSleep++
-				if len(ce.Args) != 1 {
-					bad = "time.Sleep with unexpected arguments"
+		if as, ok := x.(*ast.AssignStmt); ok && len(as.Lhs) == len(as.Rhs) {
+			for k, rhs := range as.Rhs {
+				if id, ok := as.Lhs[k].(*ast.Ident); ok && c08ContainsCall(rhs, "GetRetryInterval") {
+					intervalVars[id.Name] = true
 				}
-			}
-		case *ast.SelectStmt:
-			nSelect++
-			doneReturns, other := false, 0
-			for _, cl := range n.Body.List {
-				cc := cl.(*ast.CommClause)
-				if cc.Comm == nil {
-					bad = "select with a default case in the retry loop (busy wait?)"
-					continue
-				}
-				if c08IsDoneRecv(cc.Comm) {
-					if c08HasReturn(cc.Body) {
-						doneReturns = true
-					} else {
-						bad = "the <-Done() case of the retry wait does not return"
-					}
-				} else {
-					other++
-				}
-			}
-			if doneReturns && other >= 1 {
-				selectsCtx = true
-			} else if bad == "" {
-				bad = "select in the retry loop without a returning <-Done() case and a timer case"
 			}
 		}
 		return true
 	})
+	mentionsInterval := func(e ast.Expr) bool {
+		if c08ContainsCall(e, "GetRetryInterval") {
+			return true
+		}
+		found := false
+		ast.Inspect(e, func(x ast.Node) bool {
+			if id, ok := x.(*ast.Ident); ok && intervalVars[id.Name] {
+				found = true
+			}
+			return !found
+		})
+		return found
+	}
+	// helperResultUsed[name]: the loop returns depending on the helper's result
+	helperReturns := map[string]bool{}
+	seenHelper := map[string]bool{}
+	var visitBlock func(list []ast.Stmt)
+	followCall := func(ce *ast.CallExpr, enclosing ast.Stmt, rest []ast.Stmt) {
+		name := ""
+		switch f := ce.Fun.(type) {
+		case *ast.Ident:
+			name = f.Name
+		case *ast.SelectorExpr:
+			name = f.Sel.Name
+		}
+		if name == "" || name == "GetRetryInterval" {
+			return
+		}
+		decls := c08FuncsNamed(c, name)
+		if len(decls) != 1 || decls[0].Body == nil {
+			return
+		}
+		takesInterval := false
+		for _, a := range ce.Args {
+			if mentionsInterval(a) {
+				takesInterval = true
+			}
+		}
+		if !takesInterval && !c08ContainsCall(decls[0].Body, "GetRetryInterval") {
+			return
+		}
+		if !seenHelper[name] {
+			seenHelper[name] = true
+			scopes = append(scopes, scope{name, decls[0].Body, true})
+		}
+		// does the loop return on the helper's result?
+		switch st := enclosing.(type) {
+		case *ast.IfStmt:
+			if c08HasReturn(st.Body.List) || (st.Else != nil && c08HasReturn([]ast.Stmt{st.Else})) {
+				helperReturns[name] = true
+			}
+		case *ast.SwitchStmt:
+			if c08HasReturn(st.Body.List) {
+				helperReturns[name] = true
+			}
+		case *ast.AssignStmt:
+			vars := map[string]bool{}
+			for _, l := range st.Lhs {
+				if id, ok := l.(*ast.Ident); ok && id.Name != "_" {
+					vars[id.Name] = true
+				}
+			}
+			for _, later := range rest {
+				uses := false
+				ast.Inspect(later, func(x ast.Node) bool {
+					if id, ok := x.(*ast.Ident); ok && vars[id.Name] {
+						uses = true
+					}
+					return !uses
+				})
+				if uses && c08HasReturn([]ast.Stmt{later}) {
+					helperReturns[name] = true
+				}
+			}
+		}
+	}
+	visitBlock = func(list []ast.Stmt) {
+		for k, st := range list {
+			// calls directly in this statement (not in nested blocks: those are visited themselves)
+			var heads []ast.Node
+			switch n := st.(type) {
+			case *ast.IfStmt:
+				if n.Init != nil {
+					heads = append(heads, n.Init)
+				}
+				heads = append(heads, n.Cond)
+				visitBlock(n.Body.List)
+				if eb, ok := n.Else.(*ast.BlockStmt); ok {
+					visitBlock(eb.List)
+				} else if ei, ok := n.Else.(*ast.IfStmt); ok {
+					visitBlock([]ast.Stmt{ei})
+				}
+			case *ast.SwitchStmt:
+				if n.Init != nil {
+					heads = append(heads, n.Init)
+				}
+				if n.Tag != nil {
+					heads = append(heads, n.Tag)
+				}
+				for _, cl := range n.Body.List {
+					visitBlock(cl.(*ast.CaseClause).Body)
+				}
+			case *ast.BlockStmt:
+				visitBlock(n.List)
+			case *ast.ForStmt:
+				visitBlock(n.Body.List)
+			case *ast.RangeStmt:
+				visitBlock(n.Body.List)
+			default:
+				heads = append(heads, st)
+			}
+			for _, h := range heads {
+				ast.Inspect(h, func(x ast.Node) bool {
+					if _, ok := x.(*ast.FuncLit); ok {
+						return false
+					}
+					if ce, ok := x.(*ast.CallExpr); ok {
+						followCall(ce, st, list[k+1:])
+					}
+					return true
+				})
+			}
+		}
+	}
+	visitBlock(loop.Body.List)
+
+	haveInterval := false
+	for _, sc := range scopes {
+		if c08ContainsCall(sc.body, "GetRetryInterval") {
+			haveInterval = true
+		}
+	}
+	if !haveInterval {
+		return "", fmt.Errorf("Request.do: no GetRetryInterval call in the retry loop (or the helper it calls)")
+	}
+
+	nSleep, nSelect := 0, 0
+	selectsCtx := false
+	var bad string
+	for _, sc := range scopes {
+		sc := sc
+		// locals that hold a Done channel: `done := X.Done()`
+		doneVars := map[string]bool{}
+		ast.Inspect(sc.body, func(x ast.Node) bool {
+			if as, ok := x.(*ast.AssignStmt); ok && len(as.Lhs) == len(as.Rhs) {
+				for k, rhs := range as.Rhs {
+					if ce, ok := rhs.(*ast.CallExpr); ok && len(ce.Args) == 0 {
+						if se, ok := ce.Fun.(*ast.SelectorExpr); ok && se.Sel.Name == "Done" {
+							if id, ok := as.Lhs[k].(*ast.Ident); ok {
+								doneVars[id.Name] = true
+							}
+						}
+					}
+				}
+			}
+			return true
+		})
+		ast.Inspect(sc.body, func(x ast.Node) bool {
+			switch n := x.(type) {
+			case *ast.FuncLit:
+				return false
+			case *ast.ExprStmt:
+				if ce, ok := c08IsPkgCall(n.X, "time", "Sleep"); ok {
+					nSleep++
+					if len(ce.Args) != 1 {
+						bad = "time.Sleep with unexpected arguments"
+					}
+				}
+			case *ast.SelectStmt:
+				nSelect++
+				doneReturns, other := false, 0
+				for _, cl := range n.Body.List {
+					cc := cl.(*ast.CommClause)
+					if cc.Comm == nil {
+						bad = "select with a default case in the retry wait (busy wait?)"
+						continue
+					}
+					if c08IsDoneRecv(cc.Comm) || c08IsRecvFromVar(cc.Comm, doneVars) {
+						if c08HasReturn(cc.Body) {
+							doneReturns = true
+						} else {
+							bad = "the <-Done() case of the retry wait does not return"
+						}
+					} else {
+						other++
+					}
+				}
+				if doneReturns && other >= 1 {
+					if sc.helper && !helperReturns[sc.name] {
+						bad = "the retry loop does not return on the result of " + sc.name + " (context error dropped?)"
+					} else {
+						selectsCtx = true
+					}
+				} else if bad == "" {
+					bad = "select in the retry wait without a returning <-Done() case and a timer case"
+				}
+			}
+			return true
+		})
+	}
 	if bad != "" {
 		return "", fmt.Errorf("Request.do: %s", bad)
 	}
